@@ -91,6 +91,25 @@ CHECKS = {
               'replayable by the guarded hash-order hook.'),
         design_ref='DESIGN.md section 5 C09, section 3',
         note='No semantic oracle is involved: only agreement between runs. Limited outcomes are excluded and counted.'),
+    'C10': dict(
+        category='exploration',
+        technique='Hypothesis arguments + metamorphic transformations (reflexivity, added premise, injective renamings) compared between runs of the real prover',
+        text=('Metamorphic relations between runs: conclusion-as-premise must be valid; adding a premise must not turn valid '
+              'into refuted; injective renamings of letters, constants, predicates and bound variables (new indexes and '
+              'subscripts, changing sort and first-appearance order) must keep the outcome class. Reaches first-order '
+              'modal arguments for which no enumeration oracle exists.'),
+        design_ref='DESIGN.md section 5 C10',
+        note='No semantic oracle: agreement between related runs only; limited runs are inconclusive.'),
+    'C11': dict(
+        category='exploration',
+        technique='Hypothesis schema-substitution arguments over every declared (weaker, stronger) pair; differential oracle between the two logics',
+        text=('All declared extension pairs are read from the package; arguments biased to validity (substitution instances of '
+              'the example schemata and of standard first-order / modal / identity forms) are proved in the weaker logic and, '
+              'when valid there, in the stronger one, which must not refute them (and must prove them on the propositional '
+              'fragment). Failures are attributed to a locally inexact rule, or to the declaration itself when both verdicts '
+              'agree with the truth tables.'),
+        design_ref='DESIGN.md section 5 C11',
+        note='Agreement between logics only; the per-pair count of valid arguments is reported in the evidence.'),
 }
 
 NOT_YET = 'check not built yet in this session (planned, see DESIGN.md section 5); no claim is made'
